@@ -286,7 +286,8 @@ LEVEL = ("Decides the two closed forms the property is about for ALL counts by d
          "every non-zero count; __get_nbdays counts the Monday-Friday days of the half-open interval for non-negative distances "
          "(negative ones: known finding, the mirrored interval is pinned by tests); the business days of a month as a 4 x 7 table "
          "(RF2-closed); plus three structural conditions (residue remainders from non-negative operands, weekday switch coverage, 5 "
-         "per 7 both ways) and freshness of looked-up month lengths.  NOT decided: __get_b_equiv, the bizda <-> ymd conversions and "
-         "yearly tables, the per-calendar call sites, 32-bit overflow of huge counts.")
+         "per 7 both ways) and freshness of looked-up month lengths.  The getters and conversions of business-day dates (day of month, weekday, business day of the year through "
+         "the packed yearly tables, to year-month-day / day number / week date) and __bizda_add_b are decoded for every business day of the "
+         "21 class years (RF2-biz).  NOT decided: __get_b_equiv on its own, __bizda_add_d / _w, 32-bit overflow of huge counts.")
 RULE = "obligation = one residue remainder, one weekday switch, the week factor pair, one decoded closed form (all its cases), one use of a looked-up length"
 ASSUME = ["weekdays handed to the closed forms are 1..7 (entry contract of the analysis)"]
